@@ -1509,10 +1509,8 @@ public:
             // locations because those writes wrote values of
             // different types.
 
-            // The store below overwrites the region as if nothing had
-            // been written before; afterwards the region is (may-)
-            // initialized like after any other store.
-            is_uninitialized_rgn = true;
+            // After this store the region is (may-)initialized like
+            // after any other store: it is not marked uninitialised.
             new_rgn_info.type_val() = variable_type::mk_region(val.get_type());
 
             m_ghost_var_man.forget(rgn, m_base_dom);
